@@ -469,7 +469,8 @@ macro_rules! impl_nio_read_buf {
                 let start_time = $crate::common::now();
                 let mut left_time = $crate::syscall::recv_time_limit($fd);
                 let mut received = 0;
-                let mut r = -1;
+                // a zero-length request transfers nothing and succeeds
+                let mut r = if $len == 0 { 0 } else { -1 };
                 while received < $len && left_time > 0 {
                     r = self.inner.$syscall(
                         fn_ptr,
@@ -694,7 +695,8 @@ macro_rules! impl_nio_write_buf {
                 let start_time = $crate::common::now();
                 let mut left_time = $crate::syscall::send_time_limit($fd);
                 let mut sent = 0;
-                let mut r = -1;
+                // a zero-length request transfers nothing and succeeds
+                let mut r = if $len == 0 { 0 } else { -1 };
                 while sent < $len && left_time > 0 {
                     r = self.inner.$syscall(
                         fn_ptr,
